@@ -50,4 +50,16 @@ PROPS = {
     ),
 }
 
+_UNIT_ALG = [Q + "Unit.__mul__", Q + "Unit.__rmul__", Q + "Unit.__truediv__",
+             Q + "Unit.__rtruediv__", Q + "Unit.__pow__",
+             Q + "_amnt_and_unit_from_term"]
+_QTY_ALG = [Q + "Quantity.__mul__", Q + "Quantity.__rmul__",
+            Q + "Quantity.__truediv__", Q + "Quantity.__rtruediv__",
+            Q + "Quantity.__pow__"]
+PROPS["C02"] = dict(functions=_UNIT_ALG + _QTY_ALG + [Q + "Quantity.__new__"],
+                    standins=["C02"], frame=["_op_cache"])
+PROPS["C17"] = dict(functions=_UNIT_ALG + _QTY_ALG, standins=["C17"],
+                    frame=["_op_cache", "_TERM_UNIT_MAP.register_item"])
+PROPS["C05"]["functions"] += _UNIT_ALG[:5] + _QTY_ALG
+
 ALL_IDS = [f"C{i:02d}" for i in range(1, 21)]
